@@ -478,6 +478,9 @@ func runDutiesWith(ctx context.Context, sc *DkgScenario, shares map[uint64][]byt
 				ParentRoot: rootBytes("p" + d.Root), StateRoot: rootBytes("q" + d.Root), BodyRoot: rootBytes(d.Root)}}
 			if d.By == "key" {
 				req.Id = &pb.SignBeaconProposalRequest_PublicKey{PublicKey: share}
+			} else if d.By == "keypad" {
+				// the share's public key followed by extra bytes (accounts are resolved on the first 48 bytes)
+				req.Id = &pb.SignBeaconProposalRequest_PublicKey{PublicKey: append(append([]byte{}, share...), 0x00, byte(n))}
 			} else {
 				req.Id = &pb.SignBeaconProposalRequest_Account{Account: sc.Account}
 			}
@@ -490,6 +493,8 @@ func runDutiesWith(ctx context.Context, sc *DkgScenario, shares map[uint64][]byt
 				Source: &pb.Checkpoint{Epoch: d.S, Root: rootBytes("s" + d.Root)}, Target: &pb.Checkpoint{Epoch: d.T, Root: rootBytes("t" + d.Root)}}}
 			if d.By == "key" {
 				one.Id = &pb.SignBeaconAttestationRequest_PublicKey{PublicKey: share}
+			} else if d.By == "keypad" {
+				one.Id = &pb.SignBeaconAttestationRequest_PublicKey{PublicKey: append(append([]byte{}, share...), 0x00, byte(n))}
 			} else {
 				one.Id = &pb.SignBeaconAttestationRequest_Account{Account: sc.Account}
 			}
